@@ -284,8 +284,12 @@ pub fn debug_assert_shim(b: bool)
     requires b,
 {}
 
+/// `panic!(..)`: failing loudly is allowed behaviour, but never inside a critical section: unwinding with a guard alive poisons the
+/// mutex, and every other thread that takes it (pool threads scanning the schedule, later callers) would panic as well (C15; A2 is
+/// the assumption that this never happens)
 #[verifier::external_body]
-pub fn panic_shim() -> !
+pub fn panic_shim(Ghost(locks): Ghost<u64>) -> !
+    requires locks == 0,                                                            // OBL C15 panic_outside_critical_section
 { panic!() }
 
 /// `other => panic!("Queue was in unexpected state ..")`: must be unreachable under the protocol
